@@ -3,11 +3,17 @@
    Proved part: the simplex (and hybrid) meshers run marching tetrahedra with a fixed table;
    Gen/TetTable_gen.v is that table, re-read from simplex_mesher.cpp on every run; the theorems
    below are about it (Render/MarchTet.v is the model, Render/MarchTetSem.v the proofs).
-   Oracle-only part (check/props/c03.py): dual contouring, and the fact that libfive's own
-   complex of tetrahedra (cells of different octree levels, minimal-level subspace vertices)
+   Dual contouring on a UNIFORM grid (Render/DCGrid.v, DCGridSem.v): Dual<3>::walk +
+   DCMesher::load with the patch tables libfive builds at start-up (Gen/MarchTables_gen.v,
+   dumped from the implementation on every run) is watertight and consistently oriented for
+   every filled / empty assignment of the lattice points and every choice of quad diagonals.
+   Oracle-only part (check/props/c03.py): grids with cells of different octree levels (the
+   minimal-edge rule, collapsed cells), and the fact that libfive's own complex of tetrahedra
    is closed and consistently oriented, which is the hypothesis [complex_closed]. *)
 From Coq Require Import List Arith.
+From Coq Require Import ZArith.
 From LF Require Import Gen.TetTable_gen Render.MarchTet Render.MarchTetSem.
+From LF Require Gen.MarchTables_gen Render.DCGrid Render.DCGridSem.
 Import ListNotations.
 
 (* the table itself: 16 rows, 0 / 1 / 2 triangles by the number of inside vertices, every
@@ -53,9 +59,29 @@ Theorem C03_double_tet_not_manifold :
   complex_closed ins01 double_tet /\ closed_mesh (mesh ins01 double_tet) /\ ~ manifold_mesh (mesh ins01 double_tet).
 Proof. split; [exact double_tet_closed|]. split; [exact double_tet_mesh_closed | exact double_tet_not_manifold]. Qed.
 
+(* DUAL CONTOURING, uniform grid: watertight and consistently oriented for every sign assignment
+   with finitely many sign changes and every diagonal choice *)
+Theorem C03_dc_uniform_grid_closed : forall ins diag E,
+  DCGrid.covers ins E -> DCGrid.closed_mesh (DCGrid.dc_mesh ins diag E).
+Proof. exact DCGridSem.dc_grid_closed. Qed.
+
+(* ... in particular for every finite solid, with no hypothesis left *)
+Theorem C03_dc_every_finite_solid_closed : forall S diag,
+  DCGrid.closed_mesh (DCGrid.dc_mesh (DCGridSem.ins_of S) diag (DCGridSem.edges_of S)).
+Proof. exact DCGridSem.dc_grid_closed_finite. Qed.
+
+(* every triangle corner is a real patch vertex of its cell (no index -1 / marker vertex) *)
+Theorem C03_dc_vertices_valid : forall ins d A p t,
+  DCGrid.is_axis A = true -> In t (DCGrid.quad ins d A p) ->
+  let '(a, b, c) := t in (0 <= snd a)%Z /\ (0 <= snd b)%Z /\ (0 <= snd c)%Z.
+Proof. exact DCGridSem.quad_vertices_valid. Qed.
+
 Print Assumptions C03_table_sanity.
 Print Assumptions C03_tet_boundary.
 Print Assumptions C03_marching_tets_closed.
 Print Assumptions C03_marching_tets_manifold.
 Print Assumptions C03_nonvacuous.
 Print Assumptions C03_double_tet_not_manifold.
+Print Assumptions C03_dc_uniform_grid_closed.
+Print Assumptions C03_dc_every_finite_solid_closed.
+Print Assumptions C03_dc_vertices_valid.
